@@ -1814,6 +1814,37 @@ func frameIsNotCutShort(c *Ctx, rule string) {
 				"the "+which+" of the frame is written through a writer of this package that can refuse ("+why+"): when it refuses the body after the header has gone out, the frame is cut short and every later message on the connection is lost")
 		}
 	}
+	if nframed == 0 {
+		// header and body joined before a single write (frame := append(header, data...); conn.Write(frame)): nothing lies
+		// between them; the anchor is then any function of the package that builds the Content-Length header
+		for _, fd := range allFuncDecls(p) {
+			if fd.Body == nil {
+				continue
+			}
+			mentions, writes := false, false
+			ast.Inspect(fd.Body, func(n ast.Node) bool {
+				switch x := n.(type) {
+				case *ast.Ident:
+					if k, ok := info.Uses[x].(*types.Const); ok && k.Val().Kind() == constant.String && strings.Contains(constant.StringVal(k.Val()), "Content-Length") {
+						mentions = true
+					}
+				case *ast.BasicLit:
+					if strings.Contains(x.Value, "Content-Length") {
+						mentions = true
+					}
+				case *ast.CallExpr:
+					if dest(x) != nil {
+						writes = true
+					}
+				}
+				return true
+			})
+			if mentions && writes {
+				nframed++
+				c.ok(rule, funcKey(p, fd)+"|frame-in-one-write", c.pos(fd.Pos()), "the header is built as a value; no write of this function is recognised as a separate header write")
+			}
+		}
+	}
 	c.control(rule+":framed-writer-found", nframed >= 1)
 }
 
